@@ -90,7 +90,7 @@ fn random_plan(g: &mut G, allow_per_test_cfg: bool, finite_limit: bool) -> Plan 
         };
         plan.lines = g.below(5) as usize;
         if !allow_per_test_cfg
-            && (plan.cfg != TestCfg::default() || plan.fate == Fate::Detached || matches!(plan.fate, Fate::CloseThenLinger { .. } | Fate::LateClose { .. } | Fate::BgLate { .. }))
+            && (plan.cfg != TestCfg::default() || plan.fate == Fate::Detached || matches!(plan.fate, Fate::CloseThenLinger { .. } | Fate::LateClose { .. } | Fate::BgLate { .. } | Fate::CloseOne { .. }))
         {
             continue;
         }
